@@ -76,6 +76,25 @@ def gen_cases(rng, n):
                 k_ = 1000 if ms else 1
                 q["aw"] = [p_["a"] * k_, 1]; q["bw"] = [p_["b"] * k_, 1]; q["au"] = p_.get("au", ""); q["bu"] = p_.get("bu", "")
             return q
+        r_shape = rng.random()
+        if r_shape < 0.15:
+            # an assertion the output never refers to, placed before it (with a longer horizon in the pastified kind)
+            extra = un("evT", pred("ge", var(vs[0]), const(2 * S)), 0, rng.choice([3, 4, 5])) if kind in ("past", "off") else \
+                    un("onceT", pred("ge", var(vs[0]), const(2 * S)), 0, rng.choice([3, 4, 5]))
+            subs = ["unused9 = " + to_text(extra, S)] + subs
+            named = named + [("unused9", extra)]
+        elif r_shape < 0.3 and not bconsts:
+            # a name assigned twice: the second definition uses the first, later references see the second
+            from modular import text_with_names
+            q1 = g.formula(rng.choice([0, 1])); q2 = g.formula(rng.choice([0, 1]))
+            if True:
+                both = bi(rng.choice(["and", "or"]), q1, q2)
+                opx = rng.choice(["and", "or", "implies"])
+                phi = bi(opx, both, phi)
+                phi_m = strip_spelling(phi)
+                vs = sorted(set(vars_of(phi)))
+                subs = ["t9 = " + to_text(q1, S), "t9 = ( t9 ) %s ( %s )" % (KW[both["op"]], to_text(q2, S))] + subs
+                main = "( t9 ) %s ( %s )" % (KW[opx], main)
         style = rng.choice(["add_sub_spec", "one_text"])
         declare_names = rng.random() < 0.5
         o1 = dt_obj(phi_m, S, vs, consts=cdecl)
